@@ -351,6 +351,17 @@ def family_ctxnest(cat):
         cat.add("ctxnest", [lookup([ctx([rule([{1}, {2}], [(0, 2), (1, 3)])], fmt=pf)]),
                             lookup([ctx([rule([{1}, {2}], [(1, 4)])], fmt=pf)]),
                             lookup([single({2: 5, 6: 1})]), lookup([single({2: 6})])])
+    # three levels: the innermost lookup grows the sequence inside the input of BOTH enclosing matches, and
+    # the outermost rule has a later action at / behind the new glyphs
+    for pf in (1, 2, 3):
+        for cf, chain in ((1, False), (3, False), (3, True), (2, True)):
+            for first in (0, 1):
+                for idx in (1, 2, 3):
+                    if idx <= first:
+                        continue
+                    cat.add("ctxnest", [lookup([ctx([rule([{1}, {1}, {1}], [(first, 2), (idx, 4)])], fmt=pf)]),
+                                        lookup([ctx([rule([{1}], [(0, 3)])], fmt=cf, chain=chain)]),
+                                        lookup([multi({1: [1, 2]})]), lookup([single({1: 5, 2: 6})])])
 
 
 def family_ctxskip(cat):
